@@ -72,6 +72,9 @@ func (s *vStore) Query(ctx context.Context, prefix string) ([]KeyValue, error) {
 }
 func (s *vStore) Watch(prefix string, cb func(key string, value []byte, deleted bool)) {}
 
+// subscriber identifiers as deployments form them (line identifiers contain '/'); two of them share their last segment
+var vC12Keys = []string{"olt1/0/3", "olt2/0/3", "subC", "subD"}
+
 func verifDA(store Store) *DistributedAllocator {
 	mode, base := PoolModeSession, "10.7.0.0/30"
 	if vParam("lease", 0) == 1 {
@@ -92,7 +95,15 @@ func verifPrefix(i int) *net.IPNet {
 // verifAgree: what the allocator answers for every subscriber equals what the store records.
 func verifAgree(da *DistributedAllocator, st *vStore, what string, conflicted map[string]bool) {
 	ctx := context.Background()
-	for _, k := range vKeys[:3] {
+	// conservation: the allocator counts exactly the subscribers that hold something
+	holders := 0
+	for _, k := range vC12Keys[:3] {
+		if _, has := da.Get(k); has {
+			holders++
+		}
+	}
+	vAssert(da.Stats().Allocated == holders, what+": the allocated count differs from the number of holders (leaked or lost unit)")
+	for _, k := range vC12Keys[:3] {
 		if conflicted[k] {
 			// another node recorded this subscriber at an address held here by someone else: which record wins is
 			// outside this property
@@ -119,11 +130,17 @@ func VerifC12_SessionHistory() {
 	conflicted := map[string]bool{}
 	for i := 0; i < k; i++ {
 		who := ndPick("who", 3)
-		sub := vKeys[who]
+		sub := vC12Keys[who]
 		switch ndPick("op", 4) {
 		case 0:
 			before, held := da.Get(sub)
-			p, err := da.Allocate(ctx, sub)
+			var p *net.IPNet
+			var err error
+			if ndPick("with-mac", 2) == 1 {
+				p, err = da.AllocateWithMAC(ctx, sub, net.HardwareAddr{2, 0, 0, 0, 0, byte(who + 1)})
+			} else {
+				p, err = da.Allocate(ctx, sub)
+			}
 			if err == nil && held {
 				vAssert(p.String() == before.String(), "a holder asking again received a different prefix")
 			}
@@ -177,8 +194,8 @@ func VerifC12_SessionHistory() {
 		// nobody shares a prefix
 		for a := 0; a < 3; a++ {
 			for b := a + 1; b < 3; b++ {
-				pa, ha := da.Get(vKeys[a])
-				pb, hb := da.Get(vKeys[b])
+				pa, ha := da.Get(vC12Keys[a])
+				pb, hb := da.Get(vC12Keys[b])
 				if ha && hb {
 					vAssert(pa.String() != pb.String(), "two subscribers hold one prefix")
 				}
